@@ -192,6 +192,7 @@ class TemplateData(object):
             self.index_to_node = {}
             self.next_index = functools.partial(next, itertools.count())
             self.nbits_associated_list = []  # 204 YYY
+            self.defining_new_refvals = False  # 203 YYY
             self.data_not_present_count = 0  # 221
             self.waiting_for_qa_info_meaning = False
             self.qa_info_values_started = False
@@ -317,6 +318,9 @@ class TemplateData(object):
 
         if operator_code in (201, 202, 203, 206, 207, 208,):
             # nbits offset, scale offset, new refval, skip local, increment, change string length
+            if operator_code == 203:
+                # between 203YYY and 203255 the element descriptors define new reference values
+                self.defining_new_refvals = operand_value not in (0, 255)
             self.add_node(NoValueDataNode(descriptor))
 
         elif operator_code == 204:  # associated field
@@ -402,6 +406,11 @@ class TemplateData(object):
                     if not (1 <= X <= 9 or X == 31):  # skipping
                         self.add_node(NoValueDataNode(member))
                         continue
+
+            # A new reference value is a single value (no associated field), as in the coder
+            if self.defining_new_refvals and type(member) is ElementDescriptor:
+                self.add_value_node()
+                continue
 
             # Now process normally
             if isinstance(member, ElementDescriptor):
